@@ -36,7 +36,13 @@ EXPR_SEQ_Q = [H("expr", "expr_d1")] + [H("expr", "expr_d2", args=[r, 0, 0, 0], w
 # from its sender shows at the second connect: retry_when / repeat_effect_until re-connect their source)
 EXPR_LVALUE_Q = [H("expr", "expr_d1", args=[0, 1]), H("expr", "expr_d2", args=[27, 0, 0, 0, 0, 1], weight=2), H("expr", "expr_d2", args=[28, 0, 0, 0, 0, 1])]
 EXPR_LVALUE_T = [H("expr", "expr_d2", args=[r, 0, 0, 0, 0, 1], weight=(3 if r >= 18 else 1), thorough_only=True) for r in EXPR_D2_ROOTS if r not in (27, 28)]
-EXPR_SEQ_FAULTS = [H("expr", "expr_d2", args=[r, 1, 0], weight=6, thorough_only=True) for r in EXPR_D2_ROOTS if r >= 18]
+EXPR_SEQ_FAULTS = [H("expr", "expr_d2", args=[r, 1, 0], weight=(6 if r >= 18 else 1), thorough_only=True) for r in EXPR_D2_ROOTS]
+# "exprnx": the same harness source compiled with rvalue connect of the erased sender declared noexcept (kit/expr.hpp
+# EX_NX), so that the adaptors' `if constexpr (is_nothrow_connectable_v<...>)` branches are taken the other way round; a
+# leaf's lvalue re-connect (retry_when / repeat_effect_until) may still throw
+EXPR_NX_Q = [H("exprnx", "expr_cfault", args=[0]), H("exprnx", "expr_cfault", args=[27], weight=3), H("exprnx", "expr_cfault", args=[28]), H("exprnx", "expr_d1", args=[0, 0])]
+EXPR_NX_T = [H("exprnx", "expr_cfault", args=[r], weight=(4 if r >= 18 else 1), thorough_only=True) for r in EXPR_D2_ROOTS if r not in (27, 28)] + [
+    H("exprnx", "expr_d2", args=[r, 1, 0], weight=6, thorough_only=True) for r in EXPR_D2_ROOTS if r >= 18]
 
 # connect-time faults (the n-th connect of one leaf throws) over the same trees, model-free exactly-once / no-leak oracle
 EXPR_CFAULT = [H("expr", "expr_cfault", args=[r], weight=(4 if r >= 18 else 1)) for r in [0] + EXPR_D2_ROOTS]
@@ -137,7 +143,7 @@ CHECKS = {
         H("cancel", "canc_generic", 2, 3), H("cancel", "canc_evt2", 2, 3), H("scopes", "scope_close_race", 2, 3, args=[0]),
         H("sched", "sch_loop", 2, 3), H("futures", "fut_v2", 2, 3, args=[0, 0]), H("timers", "tim_three", 1, 2, args=[0, 0], **{"cache-bits": 24})],
         "deadline": {"quick": 480, "thorough": 2400}},
-    "C02": {"harnesses": [H("payload", "payload_adaptors")] + EXPR_CFAULT + EXPR_SEQ_NR + EXPR_SEQ_FAULTS + RACES + RACE_LVSS + [
+    "C02": {"harnesses": [H("payload", "payload_adaptors")] + EXPR_CFAULT + EXPR_NX_Q + EXPR_SEQ_NR + EXPR_SEQ_FAULTS + RACES + RACE_LVSS + [
         H("futures", "fut_v2", 3, 4, args=[0, 0]), H("futures", "fut_v2", 3, 4, args=[1, 0]), H("futures", "fut_faults"),
         H("futures", "fut_payload_v2", 3, 4, args=[1], **{"cache-bits": 24}),
         H("cancel", "canc_detach", 3, 4, args=[0]), H("cancel", "canc_evt2", 2, 3), H("cancel", "canc_basic", 2, 3),
@@ -148,7 +154,7 @@ CHECKS = {
         H("cancel", "canc_generic", 3, 4, args=[0, 0, 0, 1]), H("cancel", "canc_detach", 3, 4, args=[0]),
         H("futures", "fut_v2", 3, 4, args=[1, 0]), H("scopes", "scope_v1", 3, 4, args=[0, 2])],
         "deadline": {"quick": 480, "thorough": 2400}},
-    "C05": {"harnesses": [H("payload", "payload_adaptors")] + EXPR_SEQ + EXPR_SEQ_FAULTS + EXPR_CFAULT, "deadline": {"quick": 420, "thorough": 2400}},
+    "C05": {"harnesses": [H("payload", "payload_adaptors")] + EXPR_SEQ + EXPR_SEQ_FAULTS + EXPR_CFAULT + EXPR_NX_Q + EXPR_NX_T, "deadline": {"quick": 420, "thorough": 2400}},
     "C12": {"harnesses": EXPR_SEQ_Q + EXPR_LVALUE_Q + EXPR_LVALUE_T + [H("expr", "expr_d2", args=[r, 0, 1], weight=6, thorough_only=True) for r in EXPR_D2_ROOTS if r >= 18], "deadline": {"quick": 420, "thorough": 2400}},
     "C06": {
         "harnesses": [
